@@ -31,6 +31,8 @@ def harnesses(tier, seed):
         if not q or prog in ('idx_flat', 'matfree', 'auto_units'):
             jobs.append(dict(fn='h_apply', params=dict(prog=prog, scaled=True)))
         jobs.append(dict(fn='h_solve', params=dict(prog=prog)))
+    for prog in (['rhs_redundant', 'asm_units_csc', 'branches'] if q else ['rhs_redundant', 'asm_units_csc', 'asm_units_dense', 'branches', 'chain3', 'diamond']):
+        jobs.append(dict(fn='h_totals_fwd_rev', params=dict(prog=prog)))
     for prog in (['implicit_asm', 'implicit'] if q else list(IMPLICIT)):
         jobs.append(dict(fn='h_jvp', params=dict(prog=prog)))
         jobs.append(dict(fn='h_apply', params=dict(prog=prog, scaled=False)))
@@ -217,3 +219,32 @@ def h_transfer(ctx, prog):
             g._doutputs.set_val(0.0)
             g._dinputs.set_val(0.0)
     ctx.observe('n', k)
+
+
+def h_totals_fwd_rev(ctx, prog):
+    """the reverse-mode total jacobian (adjoint solves, incl. the cache of adjoint solutions for redundant right-hand sides) is
+    the same matrix as the forward-mode one"""
+    if ctx.sym:
+        from symx import stubs
+        stubs.install_lu()
+    Js = {}
+    vals = None
+    for mode in ('fwd', 'rev'):
+        P = _make(prog)
+        if prog == 'rhs_redundant':
+            P = LIBRARY[prog]()          # keeps its declared design variables / responses: they define the redundant adjoints
+        p = P.build(ctx, mode=mode)
+        if vals is None:
+            vals = P.set_indeps(ctx, p)
+        else:
+            for k, v in vals.items():
+                p.set_val(k, v)
+        p.run_model()
+        Js[mode] = p.compute_totals(of=P.ofs, wrt=P.wrts, return_format='array')
+        # a second call must not be polluted by solutions cached during the first one
+        Js[mode + '2'] = p.compute_totals(of=P.ofs, wrt=P.wrts, return_format='array')
+    tol = _tol(P)
+    ctx.eq('J_rev==J_fwd', Js['rev'], Js['fwd'], tol)
+    ctx.eq('J_rev_second_call', Js['rev2'], Js['fwd'], tol)
+    ctx.eq('J_fwd_second_call', Js['fwd2'], Js['fwd'], tol)
+    ctx.observe('J', Js['fwd'])
